@@ -82,6 +82,10 @@ Step(base, opts, filters, st, it) ==
                              !.stack = <<[loc |-> loc, pb |-> it.pb, mode |-> it.mode, mtime |-> it.mtime]>> \o @]
         \* ("exists" is what stat says: a symbolic link counts if it leads somewhere - to a file or to a directory - and then the
         \*  link itself is what gets replaced, never what it points to; a dangling link is replaced without asking)
+        \* (a directory where the file belongs also "exists": the question is asked, but whatever the answer a directory is not replaced -
+        \*  unlink and the exclusive open both fail - so it stays, with everything in it)
+        ELSE IF it.ty = "file" /\ loc \in DOMAIN s1.tree /\ s1.tree[loc].ty = "dir"
+        THEN LET a == Ask(s1.policy, s1.ans) IN [s1 EXCEPT !.policy = a.policy, !.ans = a.ans]
         ELSE IF it.ty = "file" /\ loc \in DOMAIN s1.tree /\ (s1.tree[loc].ty = "file" \/ (s1.tree[loc].ty = "link" /\ s1.tree[loc].live))
         THEN LET a == Ask(s1.policy, s1.ans)
              IN [s1 EXCEPT !.tree = IF a.go THEN Put(t1, loc, nd) ELSE s1.tree, !.policy = a.policy, !.ans = a.ans]
